@@ -138,7 +138,7 @@ def corruptions(conn, lay, rng):
 def recipes_for(ctx):
     lib = G.LIB_QUICK if ctx.quick else G.LIB_THOROUGH
     n_rand, n_top = (45, 12) if ctx.quick else (2500, 400)
-    rs = [('lib', n, list(p)) for n, p in lib] + [('selfloop', list(v)) for v in G.SELFLOOPS] + [('loop', list(v)) for v in G.LOOPS]
+    rs = [('lib', n, list(p)) for n, p in lib] + [('selfloop', list(v)) for v in G.SELFLOOPS] + [('loop', list(v)) for v in G.LOOPS] + [('par', list(v)) for v in G.PARS]
     for i in range(n_rand):
         seed = ctx.seed * 100003 + i
         rs.append(('rand', seed, G.rand_params(random.Random(seed), i)))
